@@ -693,6 +693,13 @@ FINDINGS = {
             "what": "a retrier is started (or goes on) for a tower that has been flagged misbehaving meanwhile - a handler "
                     "that read the status earlier queued data for it: the appointment is sent to the tower although its "
                     "misbehaviour proof is stored (the status itself is no longer overwritten since 0773eb6)"},
+    "S22": {"props": ("C14",), "site": "watchtower-plugin/src/wt_client.rs::flag_misbehaving_tower (dbm.rs::store_misbehaving_proof)",
+            "scenario": "bad-signature-for-appointment-that-has-a-receipt",
+            "explains": {"dev:S22", "Misbehaving"},
+            "what": "an appointment that already has a receipt for the tower is delivered again (duplicate notification "
+                    "while the tower was away) and answered with a bad signature: store_misbehaving_proof fails on the "
+                    "existing receipt row, the failure is only logged (6ac4a92) and the tower is flagged misbehaving in "
+                    "memory without any proof on disk - after a restart it is trusted and sent to again"},
     "S19": {"props": ("C13",), "site": "watchtower-plugin/src/main.rs::on_commitment_revocation + retrier.rs::RetryManager::manage_retry",
             "scenario": "revocation-between-idle-wake-and-start",
             "explains": {"dev:S19", "Delivered.not_within_bound"},
@@ -707,7 +714,7 @@ FINDINGS = {
                     "nobody ever flags it reachable again, it is shown temporarily unreachable although it is back (until "
                     "the next revocation is delivered through a retrier)"},
 }
-ORDER = ["S15p", "S21", "S14", "S15", "S12", "S13", "S18", "S19", "S20"]
+ORDER = ["S15p", "S21", "S14", "S15", "S12", "S13", "S22", "S18", "S19", "S20"]
 
 
 def classify(pid, tags):
@@ -900,7 +907,8 @@ VACUITY = {
             # in flight at once are the tower's problem: the second receipt does not extend the first)
             ("S20", '{"S20"}', True, {"MaxReg": 1, "Locators": '{"l1"}', "MaxKill": 0, "MaxRetry": 0, "RegKinds": "{}",
                                       "AddKinds": '{"reject", "garbage"}'})],
-    "C14": [("S14", '{"S14"}', False, {}), ("S18", '{"S18"}', False, {}), ("S18o", '{"S18", "S18o"}', False, {})],
+    "C14": [("S14", '{"S14"}', False, {}), ("S18", '{"S18"}', False, {}), ("S18o", '{"S18", "S18o"}', False, {}),
+            ("S22", '{"S22"}', False, {"Locators": '{"l1"}'})],
 }
 
 
@@ -940,6 +948,11 @@ def regression_scripts():
     s.regall().down("t1").notify("l1").mode("t1", {"k": "accept", "hold": True}).up("t1")
     s.step(op="wait_held", t="t1", timeout_ms=5000).notify("l1").mode("t1", ACCEPT).step(op="release", t="t1")
     s.sleep(2500).probe().notify("l2").delivered("t1").probe()
+    out.append(s.done())
+    # S22: re-delivery of an accepted appointment answered with a bad signature; the client is then restarted
+    s = Sc("fix-S22", 1, fam="regression", covers=["S22"])
+    s.regall().notify("l1").down("t1").notify("l1").mode("t1", {"k": "badsig"}).up("t1")
+    s.wait_state("t1", ["misbehaving"], None, 6000).probe().kill().restart().mode("t1", ACCEPT).sleep(2500).probe()
     out.append(s.done())
     # S18: two handlers in flight; the tower answers one with a subscription error and the other with a bad signature
     s = Sc("fix-S18", 1, fam="regression", covers=["S18"])
